@@ -166,7 +166,7 @@ Proof.
     + unfold t1. cbn [cols]. rewrite <- app_assoc. exact Hnd.
 Qed.
 
-(* the values and names the operation uses (repaired code): the given ones or,
+(* the values and names the operation uses (current code, since 192568b): the given ones or,
    when absent, the distinct non-n/a values of the column in order of first
    appearance and  <column>.<value> *)
 Definition factor_values_of (i : nat) (values : option (list str)) (t : table) : list str :=
@@ -1844,4 +1844,124 @@ Proof.
     exact (G (item :: l) oks Em Eall).
   - cbn [bind]. intros e H. injection H as <-.
     exact (ou_mapM item_schema_ok (item :: l) ou_item_schema_ok e0 Em).
+Qed.
+
+(* ------------------------------------------------------------ declarative forms (audit item 3) *)
+
+(* when a cell counts as one of the listed values: same kind and same content
+   (the text "1" is not the number 1; n/a is never a listed value) *)
+Definition cell_matches (c : cell) (v : pval) : Prop :=
+  match c, v with
+  | CStr s, PStr p => s = p
+  | CNum z, PNum n => z = n
+  | _, _ => False
+  end.
+
+Lemma cell_eq_pval_matches c v : cell_eq_pval c v = true <-> cell_matches c v.
+Proof.
+  destruct c as [s|z|], v as [p|n]; cbn [cell_eq_pval cell_matches]; try (split; [discriminate | intros []]).
+  - apply str_eqb_spec.
+  - apply Z.eqb_eq.
+Qed.
+
+(* remove_rows, stated without the model's own helpers: the columns are kept;
+   a row is in the result iff it is in the input and its cell in the named
+   column matches none of the listed values; the result is the input with rows
+   deleted, i.e. the surviving rows keep their order and multiplicity *)
+Lemma remove_rows_declarative cn vals t i :
+  index_of cn (cols t) = Some i ->
+  exists keep : list cell -> bool,
+    do_remove_rows cn vals t = Ok {| cols := cols t; rows := filter keep (rows t) |} /\
+    forall r, keep r = true <-> (forall v, In v vals -> ~ cell_matches (get_cell i r) v).
+Proof.
+  intro Hi. exists (row_kept i vals). split; [exact (proj1 (remove_rows_meaning cn vals t) i Hi)|].
+  intro r. unfold row_kept. rewrite forallb_forall. split.
+  - intros H v Hv Hm. specialize (H v Hv). apply cell_eq_pval_matches in Hm. rewrite Hm in H. discriminate.
+  - intros H v Hv. destruct (cell_eq_pval (get_cell i r) v) eqn:E; [|reflexivity].
+    exfalso. apply (H v Hv). apply cell_eq_pval_matches. exact E.
+Qed.
+
+Lemma remove_rows_membership cn vals t i t' :
+  index_of cn (cols t) = Some i -> do_remove_rows cn vals t = Ok t' ->
+  cols t' = cols t /\
+  forall r, In r (rows t') <-> (In r (rows t) /\ forall v, In v vals -> ~ cell_matches (get_cell i r) v).
+Proof.
+  intros Hi H. destruct (remove_rows_declarative cn vals t i Hi) as [keep [E Hk]].
+  rewrite E in H. injection H as <-. cbn [cols rows]. split; [reflexivity|].
+  intro r. rewrite filter_In, Hk. reflexivity.
+Qed.
+
+(* rename_columns, stated on the mapping as a set of pairs with distinct keys
+   (a JSON object): position by position, a column that is a key gets the name
+   paired with it, every other column keeps its name; no cell moves *)
+Lemma rename_one_spec m c :
+  NoDup (map fst m) ->
+  (forall n, In (c, n) m -> rename_one m c = n) /\ (~ In c (map fst m) -> rename_one m c = c).
+Proof.
+  intro Hnd. unfold rename_one. induction m as [|[k v] m IH]; cbn [lookup map fst In] in *.
+  - split; [intros n [] | reflexivity].
+  - inversion Hnd as [|? ? Hk Hnd']; subst. destruct (IH Hnd') as [IH1 IH2]. destruct (str_eqb c k) eqn:E.
+    + apply str_eqb_spec in E. subst k. split; [|intro H; exfalso; apply H; left; reflexivity].
+      intros n [Hn|Hn]; [congruence|]. exfalso. apply Hk. apply in_map_iff. exists (c, n). split; [reflexivity | exact Hn].
+    + split.
+      * intros n [Hn|Hn]; [injection Hn as -> _; rewrite str_eqb_refl in E; discriminate | apply IH1; exact Hn].
+      * intro H. apply IH2. intro Hin. apply H. right. exact Hin.
+Qed.
+
+Lemma rename_columns_declarative m ig t t' :
+  NoDup (map fst m) -> do_rename_columns m ig t = Ok t' ->
+  rows t' = rows t /\ length (cols t') = length (cols t) /\
+  forall j c, nth_error (cols t) j = Some c ->
+    exists c', nth_error (cols t') j = Some c' /\
+               (forall n, In (c, n) m -> c' = n) /\ (~ In c (map fst m) -> c' = c).
+Proof.
+  intros Hnd H. destruct (rename_columns_meaning m ig t t' H) as [Hc [Hr _]].
+  split; [exact Hr|]. split; [rewrite Hc; apply map_length|].
+  intros j c Hj. exists (rename_one m c). split; [rewrite Hc; apply map_nth_error; exact Hj|].
+  exact (rename_one_spec m c Hnd).
+Qed.
+
+(* ------------------------------------------------------------ inside the fragment (audit item 4) *)
+
+(* [Exn Unmodelled] is not a behaviour of the code: it marks a run that left the
+   modelled fragment (an intermediate table with duplicate column names, text
+   in a column that is summed, ...).  End to end, INSIDE the fragment: a list
+   without messages constructs; whatever files were processed before, every
+   file gets the result of a fresh dispatcher; and on every table to which the
+   list is applicable step by step that result is a table -- not an exception
+   and not [Unmodelled]. *)
+Lemma valid_list_end_to_end ops :
+  validate all_fixes ops = Ok true ->
+  exists sts, parse_operations ops = Ok sts /\
+    (forall ts, remodel all_fixes ops ts
+                = Ok (Ran sts (map (fun t => snd (run_operations all_fixes sts t)) ts))) /\
+    (forall t, applicable_run sts t = true -> exists t', snd (run_operations all_fixes sts t) = Ok t').
+Proof.
+  intro Hv. destruct (valid_always_runs all_fixes ops [] eq_refl Hv) as [sts [Hp _]].
+  exists sts. split; [exact Hp|]. split.
+  - intro ts. destruct (valid_always_runs all_fixes ops ts eq_refl Hv) as [sts' [Hp' Hr]].
+    assert (sts' = sts) by congruence. subst sts'.
+    rewrite Hr, (order_independent all_fixes sts ts (or_introl eq_refl)). reflexivity.
+  - intros t Ha. exact (run_total sts t Ha).
+Qed.
+
+(* order independence never turns an in-fragment result into [Unmodelled]: the
+   k-th result of a sequence is the fresh result of the k-th table *)
+Lemma order_independent_nth sts ts k t :
+  nth_error ts k = Some t ->
+  nth_error (snd (run_tables all_fixes sts ts)) k = Some (snd (run_operations all_fixes sts t)).
+Proof.
+  intro H. rewrite (order_independent all_fixes sts ts (or_introl eq_refl)). cbn [snd].
+  exact (map_nth_error (fun t0 => snd (run_operations all_fixes sts t0)) k ts H).
+Qed.
+
+(* where [Unmodelled] can come from in one dispatcher step *)
+Lemma run_one_unmodelled fx st t :
+  snd (run_operations fx [st] t) = Exn Unmodelled ->
+  snd (do_op fx st (prep_data t)) = Exn Unmodelled \/
+  exists t1, snd (do_op fx st (prep_data t)) = Ok t1 /\ wfb (post_proc_data t1) = false.
+Proof.
+  rewrite run_operations_one. destruct (snd (do_op fx st (prep_data t))) as [t1|e]; intro H.
+  - right. exists t1. split; [reflexivity|]. destruct (wfb (post_proc_data t1)); [discriminate | reflexivity].
+  - left. exact H.
 Qed.
